@@ -810,7 +810,7 @@ fn main() {
     let nmax = ctx.tier.pick(3, 4);
     ctx.rule(&format!("build={}: merged — stateright BFS to fixpoint over the real Rms detector, state = (first, window contents, running sum) read with clone().into_parts(), rebuilt per transition by replaying the BFS witness history on a fresh detector; window N=1..={nmax}; frames [f32;1] [f32;2] [f64;1] [i16;2] [u8;1]; exact dyadic alphabets (every square and window sum exact); actions next(a)/next_squared(a)/current()/reset(); oracle: exact mean of the squares of the last N inputs, sqrt within {} , reset() restores the all-zero state (window and sum read back); distinct by (state, action, observation)", if NOSTD {"no_std"} else {"std"}, if NOSTD {"7% + 1e-18 (approximate sqrt)"} else {"2 ulp"}));
     ctx.rule("cancellation — unmerged DFS over every history of length <= 2N+2 over the non-dyadic alphabet {0,1e-9,1e-4,1e-3,0.1,0.3,0.7,1.0} plus reset() after any prefix, f32 and f64 mono, N=1..=3: mean square within 4(t+N)eps of the f64 recomputation, never negative or NaN, next() == sqrt(next_squared()) within the build's sqrt tolerance, reset() restores the all-zero state (window and running sum read back) even when rounding has absorbed small squares");
-    ctx.rule("drift — one long deterministic burst/silence run per (format, N in {1,7,64,1000}); labelled single executions");
+    ctx.rule("drift — one long deterministic burst/silence run per (format, N in {1,7,64,1000,65535,65536,65537}), at least four windows long; labelled single executions");
     if !NOSTD {
         ctx.rule("adaptor — signal.rms(ring) over every 4-frame source over the [f32;2] alphabet, N=1..=3, 6 outputs: bit-identical to the detector fed the same frames, one source pull per output, is_exhausted forwarded");
     }
@@ -866,9 +866,11 @@ fn main() {
 
     // drift runs
     let steps = ctx.tier.pick(100_000, 1_000_000);
-    let djobs: Vec<(usize, usize)> = (0..4).flat_map(|t| [1usize, 7, 64, 1000].into_iter().map(move |n| (t, n))).collect();
+    // (windows around 2^16: an index or counter kept in 16 bits would wrap; those runs last 4 windows)
+    let djobs: Vec<(usize, usize)> = (0..4).flat_map(|t| [1usize, 7, 64, 1000, 65535, 65536, 65537].into_iter().map(move |n| (t, n))).collect();
     djobs.par_iter().for_each(|&(t, n)| {
         let name = ["[f32;1]", "[f64;1]", "[i16;2]", "[u8;1]"][t];
+        let steps = steps.max(4 * n);
         let case = json!({"sys":"drift","frame":name,"n":n,"steps":steps});
         let _guard_scope = guard::scoped(&case.to_string());
         let r = match t {
